@@ -402,6 +402,7 @@ func registerUDPStubs() {
 			return timeout()
 		}
 		ex.clock = at
+		u.kind = 0 // the peer answers each request once: the datagram is consumed
 		n := len(u.payload)
 		if n > len(buf.data) {
 			n = len(buf.data)
@@ -428,6 +429,15 @@ func registerEnvStubs() {
 			ex.unsupported("time.Since outside logical-clock mode")
 		}
 		return ex.tt.Bin(OSub, ex.clock, t)
+	}
+	stubTable["time.Sleep"] = func(ex *Exec, fr *frame, args []Value) Value {
+		if ex.clock == nil {
+			return nil // time does not exist outside logical-clock mode
+		}
+		d := args[0].(*Term)
+		pos := ex.tt.Cmp(OSlt, ex.tt.BV(64, 0), d)
+		ex.clock = ex.tt.Bin(OAdd, ex.clock, ex.tt.Ite(pos, d, ex.tt.BV(64, 0)))
+		return nil
 	}
 	stubTable["time.Until"] = func(ex *Exec, fr *frame, args []Value) Value {
 		t := ex.timeToInstant(args[0])
